@@ -104,6 +104,25 @@ func loadOrders(body []byte) *core.Verdict {
 	rev := append([]string{}, sorted...)
 	sort.Sort(sort.Reverse(sort.StringSlice(rev)))
 	first := run(goods)
+	// repeated runs on one set give the same outcome
+	v.N++
+	{
+		ms := yang.NewModules()
+		ok := true
+		for _, id := range goods {
+			if err := ms.Parse(session.Texts[id], id+".yang"); err != nil {
+				ok = false
+			}
+		}
+		if ok {
+			ms.Process()
+			if d := session.Dump(ms, ms.Process()); d != first {
+				v.OK, v.Sig = false, "second-process-differs"
+				v.Detail = fmt.Sprintf("the texts %v processed twice on one set give a different result the second time:\n%s\nversus\n%s", goods, d, first)
+				return v
+			}
+		}
+	}
 	for _, ord := range [][]string{sorted, rev} {
 		v.N++
 		if d := run(ord); d != first {
@@ -352,6 +371,9 @@ func check(r *core.Run) {
 	core.CaseSuffix = ""
 	// the texts of the Session catalogue (incl. two revisions of one module): every load-only history
 	r.DirectionA("determ", core.TLCOpts{Module: "MCSession", Cfg: "MCSession_loads.cfg", Workers: 12, HeapGB: 16, Timeout: 0}, func(i int64, body string) bool {
+		return strings.Count(body, `"op":"process"`) == 1 && strings.Count(body, `"ok":true,"op":"load"`) >= 2
+	})
+	r.DirectionA("determ", core.TLCOpts{Module: "MCSession", Cfg: "MCSession_loads2.cfg", Workers: 12, HeapGB: 16, Timeout: 0}, func(i int64, body string) bool {
 		return strings.Count(body, `"op":"process"`) == 1 && strings.Count(body, `"ok":true,"op":"load"`) >= 2
 	})
 	r.ValidateTrace("determ", col, core.TLCOpts{Module: "ErrorsTrace", Cfg: "ErrorsTrace.cfg", Timeout: 0})
